@@ -219,6 +219,25 @@ def slice_reparse(h, res, node, parent, field, b, wit, known_nodes, matched=(), 
     res.add(known or cls, detail, wit)
 
 
+def arbitrate_fstring_extent(h, res, cls, rr, rnode_, rparent_, b, wit):
+    """The reference locates field expressions by substring search and is unreliable inside f-string fields; C07
+    prescribes the expression's own text, so the slice-reparse monitor arbitrates. True = the parser's extent is the
+    construct's own text (nothing to report)."""
+    if cls != "unlisted:range-inside-fstring-field" or rr is None:
+        return False
+    probe = core.Result("C02", "", 0)
+    fld = "value"
+    if isinstance(rparent_, dict):
+        for k_, v_ in rparent_.items():
+            if v_ is rnode_ or (isinstance(v_, list) and any(x_ is rnode_ for x_ in v_)):
+                fld = k_
+    slice_reparse(h, probe, rnode_, rparent_, fld, b, wit, {}, ())
+    if not probe.obs and probe.counters["F:reparsed"]:
+        res.counters["E:reference-extent-quirk-inside-fstring (own text confirmed by reparse)"] += 1
+        return True
+    return False
+
+
 def _known_own_extent(node, parent, field, b):
     t = node["_t"]
     r = node["_r"]
@@ -242,7 +261,8 @@ def classify_slice_difference(node, got, parent, field, b):
 # ----------------------------------------------------------------------------- per program
 def check_program(h, res, tag, text, rng, nodes_budget):
     if tag.startswith("pep695:"):
-        out = pep695.check_program(h, res, tag, "", Counter(), check_ranges=True, report_tree=False)
+        out = pep695.check_program(h, res, tag, "", Counter(), check_ranges=True, report_tree=False,
+                                   arbitrate=lambda cls, rr, rn, rp, bb, ww: arbitrate_fstring_extent(h, res, cls, rr, rn, rp, bb, ww))
         if not out:
             return
         rt, pt, text = out
@@ -282,14 +302,8 @@ def check_program(h, res, tag, text, rng, nodes_budget):
             if rr is not None:
                 known_nodes[(summ.split("@")[0], rr[0], rr[1])] = cls if not cls.startswith("unlisted") else None
         for cls, path, rr, pr, summ, rnode_, rparent_ in d.ranges[:30]:
-            if cls == "unlisted:range-inside-fstring-field" and rr is not None:
-                # the reference locates field expressions by substring search and is unreliable here; C07 prescribes the
-                # expression's own text, so the slice-reparse monitor arbitrates
-                probe = core.Result("C02", "", 0)
-                slice_reparse(h, probe, rnode_, rparent_, "value", b, wit, {}, ())
-                if not probe.obs and probe.counters["F:reparsed"]:
-                    res.counters["E:reference-extent-quirk-inside-fstring (own text confirmed by reparse)"] += 1
-                    continue
+            if arbitrate_fstring_extent(h, res, cls, rr, rnode_, rparent_, b, wit):
+                continue
             res.add(cls, {"path": re.sub(r"\[\d+\]", "[]", path)[-80:], "rust": rr, "reference": pr, "node": summ[:100]}, wit)
     structural(res, rt, b, wit)
     nodes = [(n, p, f) for n, p, f in pyref.walk(rt) if n.get("_r") is not None and n["_t"] not in ("Module", "Interactive", "Expression")]
